@@ -334,6 +334,11 @@ func handleLMove(params internal.HandlerFuncParams) ([]byte, error) {
 		return nil, errors.New("both source and destination must be lists")
 	}
 
+	// An empty source list has no element to move.
+	if len(sourceList) == 0 {
+		return []byte("$-1\r\n"), nil
+	}
+
 	// When source and destination are the same key, the element is moved within that one list.
 	if source == destination {
 		element, rest := sourceList[0], sourceList[1:]
